@@ -305,6 +305,84 @@ def check_drain(eng, run):
     run.floor("C08.drain senders", n, 2)
 
 
+class ZeroRead(RuleAnalysis):
+    """the scenario 'the wrapped transport returned 0 bytes': tests on the byte count are evaluated for 0; fact 'open' | 'eof'"""
+    tokens = ("Exception",)
+
+    def __init__(self, engine, var):
+        super().__init__(engine)
+        self.var = var
+        self.eofs = 0
+
+    def initial(self, fn):
+        return ["open"]
+
+    def may_raise(self, node, fact):
+        return []
+
+    def transfer(self, node, fact):
+        if isinstance(node, ast.Call) and isinstance(node.func, ast.Attribute) and node.func.attr == "write_eof":
+            self.eofs += 1
+            return ["eof"]
+        return [fact]
+
+    def branch(self, test, fact):
+        t, neg = test, False
+        while isinstance(t, ast.UnaryOp) and isinstance(t.op, ast.Not):
+            t, neg = t.operand, not neg
+        val = None
+        left = t.left.target if isinstance(t, ast.Compare) and isinstance(t.left, ast.NamedExpr) else (t.left if isinstance(t, ast.Compare) else None)
+        if isinstance(t, ast.Compare) and len(t.ops) == 1 and isinstance(left, ast.Name) and left.id == self.var and isinstance(t.comparators[0], ast.Constant) \
+                and isinstance(t.comparators[0].value, int):
+            c = t.comparators[0].value
+            val = {ast.Gt: 0 > c, ast.GtE: 0 >= c, ast.Lt: 0 < c, ast.LtE: 0 <= c, ast.Eq: 0 == c, ast.NotEq: 0 != c}.get(type(t.ops[0]))
+        elif isinstance(t, ast.Name) and t.id == self.var:
+            val = False
+        elif isinstance(t, ast.NamedExpr) and isinstance(t.target, ast.Name) and t.target.id == self.var:
+            val = False
+        if val is None:
+            return [fact], [fact]
+        if neg:
+            val = not val
+        return ([fact], None) if val else (None, [fact])
+
+
+def check_zero_read(eng, run, rule="C08.eofbio"):
+    """end of the ciphertext stream: when the wrapped transport returns 0 bytes the reader marks the incoming BIO EOF on every path
+    (otherwise the SSL object keeps asking for more data and the retry loop spins for ever instead of reporting end-of-stream /
+    a truncation)"""
+    mod = eng.db.module("lowlevel.api_async.transports.tls")
+    n = 0
+    for ci in mod.classes.values():
+        for fn in ci.methods.values():
+            if isinstance(fn.node, ast.Lambda):
+                continue
+            reads = [x for x in own_nodes(fn.node) if isinstance(x, ast.Await) and isinstance(x.value, ast.Call) and _cname(x.value) in ("recv_into", "recv")
+                     and not (dotted(x.value.func.value) or "").endswith("_ssl_object")]
+            eofs = [x for x in own_nodes(fn.node) if isinstance(x, ast.Call) and _cname(x) == "write_eof"]
+            if not reads or not eofs:
+                continue
+            # the name bound to the byte count
+            var = None
+            for x in own_nodes(fn.node):
+                if isinstance(x, ast.NamedExpr) and x.value in reads and isinstance(x.target, ast.Name):
+                    var = x.target.id
+                if isinstance(x, (ast.Assign, ast.AnnAssign)) and getattr(x, "value", None) in reads:
+                    tg = x.targets[0] if isinstance(x, ast.Assign) else x.target
+                    var = tg.id if isinstance(tg, ast.Name) else var
+            if var is None:
+                continue
+            n += 1
+            an = ZeroRead(eng, var)
+            out = Interp(an, fn).run()
+            bad = [tr for f, tr in out.ret.items() if f == "open"]
+            for tr in bad[:1]:
+                run.finding(rule, fn, _stmt_at(fn, tr[-1]) if tr else fn.node, f"a 0-byte read (`{var}` == 0: the peer closed the connection) can return without `write_eof()` on the incoming BIO: "
+                            "the TLS layer never learns that the stream ended, the retry loop asks for more data for ever and end-of-stream / truncation is never reported", tr)
+            run.ob(rule, f"{fn.short}:zero-read-marks-BIO-eof", not bad, count_var=var)
+    run.floor(f"{rule} ciphertext readers", n, 1)
+
+
 def check_locks(eng, run):
     tls = eng.db.cls(TLS)
     fn = tls.methods["_retry_ssl_method"]
@@ -348,6 +426,7 @@ def run(eng, run):
     check_conf(eng, run)
     check_flush(eng, run)
     check_drain(eng, run)
+    check_zero_read(eng, run)
     check_locks(eng, run)
 
 
@@ -413,4 +492,19 @@ BENIGN += [
     Variant("flush-awaited-then-return", _T + ".send_all", lambda fn: replace_stmt(fn, stmt_has("return await self.__flush_data_to_send()"), "await self.__flush_data_to_send()\nreturn None"),
             why="same drain, explicit return"),
     Variant("write-all-popleft", _WA, lambda fn: replace_stmt(fn, stmt_has("del write_backlog[0]"), "write_backlog.popleft()"), why="deque.popleft() instead of del [0]"),
+]
+
+
+_IDRR = "lowlevel.api_async.transports.tls:_IncomingDataReader.readinto"
+def _count_test(fn, op, const):
+    c = next(n for n in ast.walk(fn) if isinstance(n, ast.Compare) and isinstance(n.ops[0], ast.Gt))
+    c.ops, c.comparators = [op], [ast.Constant(const)]
+
+
+MUTANTS += [
+    Variant("zero-byte-read-written-as-data", _IDRR, lambda fn: _count_test(fn, ast.GtE(), 0), "C08.eofbio",
+            why="TCP EOF is written to the BIO as empty data: the retry loop spins on WANT_READ instead of reporting end-of-stream (seed C03-8)"),
+]
+BENIGN += [
+    Variant("zero-byte-read-test-ge-1", _IDRR, lambda fn: _count_test(fn, ast.GtE(), 1), why="same test written as >= 1"),
 ]
